@@ -147,8 +147,52 @@ def run(chk) -> None:
     _r11b(chk, repo, W)
     _r11c(chk, repo, W, L)
     _r11d(chk, repo, W, L)
+    chk.rule("R11f", "text given as a string (stdin, the simple API) reaches render_string as it was given: every lint_string_wrapped / lint_string / parse_string / render_string call of the fix route passes its caller's own unmodified parameter, or the unbounded read of stdin")
+    _r11f(chk, repo)
     chk.rule("R11e", "encoding autodetection looks at the whole file: the bytes it judges come from an unbounded read() of the file named by its parameter")
     _r11e(chk, repo)
+
+
+STRING_ENTRY = {"lint_string_wrapped": "string", "lint_string": "in_str", "parse_string": "in_str", "render_string": "in_str"}
+STRING_CALLERS = (LINTER, "src/sqlfluff/cli/commands.py", "src/sqlfluff/api/simple.py")
+
+
+def _r11f(chk, repo) -> None:
+    """The string a caller hands in is the string whose untouched parts are written back."""
+    n = n_param = n_stdin = 0
+    for rel in STRING_CALLERS:
+        for q, g in repo.mod(rel).functions():
+            cs = [c for c in calls_in(g) if isinstance(c.func, ast.Attribute) and c.func.attr in STRING_ENTRY]
+            if not cs:
+                continue
+            cfg = cfg_of(g)
+            for c in cs:
+                kw = STRING_ENTRY[c.func.attr]
+                a = kwarg(c, kw) or (c.args[0] if c.args and not isinstance(c.args[0], ast.Starred) else None)
+                if a is None:
+                    continue
+                n += 1
+                st = cfg.stmt_of(c)
+                if param_of(cfg, a, st) is not None:
+                    n_param += 1
+                    ok = True
+                else:
+                    lv = _leaves(cfg, a, st)
+                    def raw_read(e):
+                        # <stream>.read() with no bound, or the loader's text component
+                        return isinstance(e, ast.Call) and last_attr(e) == "read" and not e.args and not e.keywords
+                    ok = bool(lv) and all(k == "expr" and ((raw_read(e) and not p) or (isinstance(e, ast.Call) and last_attr(e) == "load_raw_file_and_config" and p == (0,))) for e, p, at, k in lv)
+                    n_stdin += ok
+                chk.require(
+                    ok, "R11f", c,
+                    f"{c.func.attr}() receives {short(a, 50)}, which is not the caller's own parameter as given (nor an unbounded read of the input): "
+                    "the text is changed on the way in, so characters no fix touches differ in what is written back",
+                    detail=f"{q}: {c.func.attr}() gets the text as given",
+                )
+    chk.count("R11f.string_entry_calls", n)
+    chk.count("R11f.from_own_parameter", n_param)
+    chk.count("R11f.from_raw_read", n_stdin)
+    chk.floor("R11f.string_entry_calls", 8)
 
 
 def _r11e(chk, repo) -> None:
@@ -781,6 +825,24 @@ VARIANTS = [
         "            slice_buff, filtered_source_patches, self.templated_file.source_str\n",
         "            slice_buff, filtered_source_patches, self.templated_file.templated_str\n",
         "R11b", "fix_string",
+    ),
+    Variant(
+        "bom-stripped-from-string-input", LINTER,
+        "        result = LintingResult()\n        linted_path = LintedDir(fname)\n        if stdin_filename:\n",
+        "        string = string.lstrip(\"\\ufeff\")\n        result = LintingResult()\n        linted_path = LintedDir(fname)\n        if stdin_filename:\n",
+        "R11f", "lint_string_wrapped", "seeded C11-4 (same shape): the fixed string is rebuilt from the stripped text, the first character is lost",
+    ),
+    Variant(
+        "stdin-fix-strips-trailing-whitespace", "src/sqlfluff/cli/commands.py",
+        "    stdin = sys.stdin.read()\n\n    result = linter.lint_string_wrapped(\n        stdin, fname=\"stdin\", fix=True,",
+        "    stdin = sys.stdin.read()\n\n    result = linter.lint_string_wrapped(\n        stdin.rstrip() + \"\\n\", fname=\"stdin\", fix=True,",
+        "R11f", "_stdin_fix",
+    ),
+    Variant(
+        "quiet-stdin-text-through-locals", "src/sqlfluff/cli/commands.py",
+        "    stdin = sys.stdin.read()\n\n    result = linter.lint_string_wrapped(\n        stdin, fname=\"stdin\", fix=True,",
+        "    stdin = sys.stdin.read()\n    text_in = stdin\n\n    result = linter.lint_string_wrapped(\n        string=text_in, fname=\"stdin\", fix=True,",
+        "QUIET", None, "R11f: the text through a second local, passed by keyword",
     ),
     Variant("normalisation-dropped", LINTER, "        in_str = self._normalise_newlines(in_str)\n", "", "R11c", "render_string"),
     Variant("normaliser-misses-lone-cr", LINTER, 'regex.sub(r"\\r\\n|\\r", "\\n", string)', 'regex.sub(r"\\r\\n", "\\n", string)', "R11c", "_normalise_newlines"),
